@@ -238,3 +238,145 @@ def _jit(ip, f=None, **kw):
 @model("jax.numpy.array", "jax.numpy.asarray", "numpy.array", "numpy.asarray")
 def _array(ip, x, *a, **k):
     return x
+
+
+# ---------------------------------------------------------------------- arrays
+
+
+class SliceView:
+    """view arr[start : start+size] of a symbolic 1-d array (SSeq scalar)"""
+
+    def __init__(self, seq, start, size):
+        self.seq, self.start, self.size = seq, start, size
+
+
+@model("jax.lax.dynamic_slice")
+def _dynamic_slice(ip, operand, start_indices, slice_sizes):
+    """jax.lax.dynamic_slice on a 1-d array: negative starts are normalised (+n), then the start is
+    clamped into [0, n - size] (checked natively: start -2, n 5, size 3 -> start 2)."""
+    from .core import SSeq
+
+    if not isinstance(operand, SSeq) or operand.fields is not None:
+        raise Unsupported("dynamic_slice on non-symbolic array")
+    (start,), (size,) = start_indices, slice_sizes
+    n = operand.length
+    start = to_sort(start, z3.IntSort())
+    size = to_sort(size, z3.IntSort())
+    norm = z3.If(start < 0, start + n, start)
+    hi = n - size
+    clamped = z3.If(norm < 0, z3.IntVal(0), z3.If(norm > hi, hi, norm))
+    return SliceView(operand, clamped, size)
+
+
+def _minwin(view):
+    arr = view.seq.arrays[None]
+    f = z3.Function("minwin", arr.sort(), z3.IntSort(), z3.IntSort(), arr.sort().range())
+    return f(arr, view.start, view.size)
+
+
+def _argminwin(view):
+    arr = view.seq.arrays[None]
+    f = z3.Function("argminwin", arr.sort(), z3.IntSort(), z3.IntSort(), z3.IntSort())
+    return f(arr, view.start, view.size)
+
+
+@model("jax.numpy.min", "numpy.min")
+def _jmin(ip, x, *a, **k):
+    if isinstance(x, SliceView):
+        ip.ctx.notes.append("jnp.min over a window is the uninterpreted minwin(array, start, size): only the window indices are decided")
+        return _minwin(x)
+    if isinstance(x, (list, tuple)):
+        r = ip.to_z3_any(x[0])
+        for y in x[1:]:
+            y = ip.to_z3_any(y)
+            r = z3.If(y < r, y, r)
+        return r
+    raise Unsupported("jnp.min")
+
+
+@model("jax.numpy.max", "numpy.max")
+def _jmax(ip, x, *a, **k):
+    if isinstance(x, (list, tuple)):
+        r = ip.to_z3_any(x[0])
+        for y in x[1:]:
+            y = ip.to_z3_any(y)
+            r = z3.If(y > r, y, r)
+        return r
+    raise Unsupported("jnp.max")
+
+
+@model("jax.numpy.argmin", "numpy.argmin")
+def _jargmin(ip, x, *a, **k):
+    if isinstance(x, SliceView):
+        r = _argminwin(x)
+        ip.ctx.assume(z3.And(r >= 0, r < x.size))
+        ip.ctx.notes.append("jnp.argmin over a window is the uninterpreted argminwin(array, start, size) in [0, size)")
+        return r
+    raise Unsupported("jnp.argmin")
+
+
+@model("jax.numpy.abs", "numpy.abs")
+def _jabs(ip, x):
+    return MODELS["builtins.abs"](ip, x)
+
+
+def _sliceview_getitem(ip, v, idx):
+    if isinstance(v, SliceView):
+        i = to_sort(idx, z3.IntSort())
+        return z3.Select(v.seq.arrays[None], v.start + i)
+    if is_z3(v) and v.sort() == U:
+        return ip.uf("getitem", v, ip.to_U(idx) if not (is_z3(idx) and idx.sort() != U) else idx)
+    raise Unsupported(f"getitem({v!r}, {idx!r})")
+
+
+MODELS["getitem"] = _sliceview_getitem
+
+
+def _u_getslice(ip, v, lo, hi, st):
+    if is_z3(v) and v.sort() == U:
+        return ip.uf("getslice", v, ip.to_U(("slice", lo, hi, st)))
+    raise Unsupported(f"slice of {v!r}")
+
+
+MODELS["getslice"] = _u_getslice
+
+
+class AtProxy:
+    def __init__(self, arr):
+        self.arr = arr
+
+
+def _zattr_at(ip, v):
+    return AtProxy(v)
+
+
+MODELS["zattr:at"] = _zattr_at
+
+
+@model("jax.numpy.where", "numpy.where")
+def _where(ip, cond, x=None, y=None):
+    if x is None or y is None:
+        raise Unsupported("one-argument where")
+    cb = ip.truth(cond)
+    if isinstance(cb, bool):
+        return x if cb else y
+    a, b = ip.to_z3_any(x), ip.to_z3_any(y)
+    if a.sort() != b.sort():
+        a, b, _ = ip.numeric_pair(a, b)
+    return z3.If(cb, a, b)
+
+
+@model("jax.numpy.minimum", "numpy.minimum")
+def _minimum(ip, a, b):
+    x, y, s = ip.numeric_pair(a, b)
+    if s == FP32:
+        return z3.If(z3.fpIsNaN(x), x, z3.If(z3.fpIsNaN(y), y, z3.If(z3.fpLT(y, x), y, x)))
+    return z3.If(y < x, y, x)
+
+
+@model("jax.numpy.maximum", "numpy.maximum")
+def _maximum(ip, a, b):
+    x, y, s = ip.numeric_pair(a, b)
+    if s == FP32:
+        return z3.If(z3.fpIsNaN(x), x, z3.If(z3.fpIsNaN(y), y, z3.If(z3.fpGT(y, x), y, x)))
+    return z3.If(y > x, y, x)
